@@ -1680,6 +1680,12 @@ func (b *boundsFn) refine(d *dbm, cond ssa.Value, truth bool) {
 			b.applyGuard(d, call, c.Index, truth)
 		}
 		return
+	case *ssa.Call:
+		// a module predicate: what it guarantees about its arguments when it answers truth
+		if c.Call.Signature().Results().Len() == 1 {
+			b.applyGuardArgs(d, c, truth)
+		}
+		return
 	case *ssa.BinOp:
 		if !isAnyInt(c.X.Type()) {
 			// x != nil for a slice (or pointer) that a module function returned
@@ -1720,38 +1726,49 @@ func (b *boundsFn) refine(d *dbm, cond ssa.Value, truth bool) {
 				return
 			}
 		}
-		x, y := c.X, c.Y
-		switch op {
-		case token.LSS:
-			b.le(d, x, y, -1)
-		case token.LEQ:
-			b.le(d, x, y, 0)
-		case token.GTR:
-			b.le(d, y, x, -1)
-		case token.GEQ:
-			b.le(d, y, x, 0)
-		case token.EQL:
-			b.le(d, x, y, 0)
-			b.le(d, y, x, 0)
-		case token.NEQ:
-			// tighten when one side is at the boundary of the other
-			xi, xc, xC := b.intVar(x)
-			yi, yc, yC := b.intVar(y)
-			switch {
-			case xC && yC:
-				if xc == yc {
-					d.bottom = true
-				}
-			case xC && yi >= 0:
-				b.neqConst(d, yi, xc)
-			case yC && xi >= 0:
-				b.neqConst(d, xi, yc)
-			case xi >= 0 && yi >= 0:
-				if d.get(xi, yi) == 0 {
-					d.add(xi, yi, -1)
-				} else if d.get(yi, xi) == 0 {
-					d.add(yi, xi, -1)
-				}
+		b.refineCmp(d, op, c.X, c.Y)
+	case *ssa.Phi:
+		// a && b / a || b used as a value (`return len(l) == 1 && isStar(l[0])`): the atoms that must hold
+		for _, a := range condAtoms(c, truth, 0) {
+			if a.call == nil && a.x != nil && a.y != nil && isAnyInt(a.x.Type()) {
+				b.refineCmp(d, a.op, a.x, a.y)
+			}
+		}
+	}
+}
+
+// refineCmp: x op y holds.
+func (b *boundsFn) refineCmp(d *dbm, op token.Token, x, y ssa.Value) {
+	switch op {
+	case token.LSS:
+		b.le(d, x, y, -1)
+	case token.LEQ:
+		b.le(d, x, y, 0)
+	case token.GTR:
+		b.le(d, y, x, -1)
+	case token.GEQ:
+		b.le(d, y, x, 0)
+	case token.EQL:
+		b.le(d, x, y, 0)
+		b.le(d, y, x, 0)
+	case token.NEQ:
+		// tighten when one side is at the boundary of the other
+		xi, xc, xC := b.intVar(x)
+		yi, yc, yC := b.intVar(y)
+		switch {
+		case xC && yC:
+			if xc == yc {
+				d.bottom = true
+			}
+		case xC && yi >= 0:
+			b.neqConst(d, yi, xc)
+		case yC && xi >= 0:
+			b.neqConst(d, xi, yc)
+		case xi >= 0 && yi >= 0:
+			if d.get(xi, yi) == 0 {
+				d.add(xi, yi, -1)
+			} else if d.get(yi, xi) == 0 {
+				d.add(yi, xi, -1)
 			}
 		}
 	}
@@ -1796,6 +1813,53 @@ func (b *boundsFn) applyGuard(d *dbm, c *ssa.Call, ri int, val bool) {
 	for _, ref := range *c.Referrers() {
 		if x, ok := ref.(*ssa.Extract); ok {
 			b.applySummaryMatrix(d, c, s, m, x.Index, x)
+		}
+	}
+}
+
+// applyGuardArgs: a single-result predicate answered val: the relations among zero and its arguments that hold on
+// every return that can produce val.
+func (b *boundsFn) applyGuardArgs(d *dbm, c *ssa.Call, val bool) {
+	s := b.summaryAt(d, c)
+	if s == nil || s.cond == nil {
+		return
+	}
+	m := s.cond[guardKey{0, val}]
+	if m == nil {
+		return
+	}
+	type ent struct {
+		v int
+		c int64
+		k bool
+	}
+	ents := []ent{{v: 0}}
+	for i, a := range c.Call.Args {
+		if i >= s.nparam {
+			break
+		}
+		vi, cc, k := b.summaryVarOfValue(a)
+		ents = append(ents, ent{vi, cc, k})
+	}
+	for i := range ents {
+		for j := range ents {
+			if i == j {
+				continue
+			}
+			x := m.get(i, j) // v_i - v_j <= x
+			if x >= bInf {
+				continue
+			}
+			a, e := ents[i], ents[j]
+			switch {
+			case a.k && e.k:
+			case a.k && e.v >= 0:
+				d.add(0, e.v, x-a.c)
+			case e.k && a.v >= 0:
+				d.add(a.v, 0, x+e.c)
+			case a.v >= 0 && e.v >= 0 && a.v != e.v:
+				d.add(a.v, e.v, x)
+			}
 		}
 	}
 }
@@ -2464,6 +2528,7 @@ type boundsEngine struct {
 	busy     map[*ssa.Function]bool
 	summs    map[*ssa.Function]*boundsSummary
 	ctxSumms map[string]*boundsSummary
+	ctxFns   map[string]*boundsFn
 	ctxDepth int
 }
 
@@ -2529,7 +2594,57 @@ func (e *boundsEngine) summCtx(callee *ssa.Function, seed [][3]int64, key string
 	delete(e.busy, callee)
 	s := cb.summary()
 	e.ctxSumms[k] = s
+	if e.ctxFns == nil {
+		e.ctxFns = map[string]*boundsFn{}
+	}
+	e.ctxFns[k] = cb
 	return s
+}
+
+// stateBefore: the abstract state of fn just before instruction at (nil if unreachable).
+func (b *boundsFn) stateBefore(at ssa.Instruction) *dbm {
+	blk := at.Block()
+	d0 := b.in[blk]
+	if d0 == nil {
+		return nil
+	}
+	d := d0.clone()
+	for _, in := range blk.Instrs {
+		if in == at {
+			return d
+		}
+		b.transfer(d, in)
+	}
+	return nil
+}
+
+// provenInContext: obligation `in` of helper h holds when h is analysed under what the caller knows at call site c.
+func (e *boundsEngine) provenInContext(c *ssa.Call, h *ssa.Function, in ssa.Instruction) bool {
+	cf := e.get(c.Parent())
+	if cf == nil {
+		return false
+	}
+	d := cf.stateBefore(c)
+	if d == nil {
+		return true // the call is unreachable
+	}
+	seed, key := cf.callSeed(d, c)
+	if seed == nil {
+		return false
+	}
+	if s := e.summCtx(h, seed, key); s == nil {
+		return false
+	}
+	cb := e.ctxFns[fmt.Sprintf("%p|%s", h, key)]
+	if cb == nil {
+		return false
+	}
+	for _, ob := range cb.obligations() {
+		if ob.in == in {
+			return ob.ok
+		}
+	}
+	return false
 }
 
 // AST methods that index values whose non-emptiness is a value-level invariant; not in scope.
@@ -2606,6 +2721,85 @@ func runBounds(r *core.Run) {
 			r.Check(ob.ok, ob.key, ob.pos, "", ob.detail+": an argument could make this access panic (index/slice out of range)")
 		}
 	}
+	// unexported helpers that the functions in scope call (directly or through other such helpers) carry part of
+	// their index arithmetic: an obligation there must hold on its own, or in the context of every call from the scope
+	inScope := map[*ssa.Function]bool{}
+	for _, name := range scope {
+		if fn := byName[name]; fn != nil {
+			inScope[fn] = true
+		}
+	}
+	// (the frozen list of lexer/parser functions of C01 is a selection: their callees outside the list index token
+	// data under lexical invariants and are deliberately not claimed, so the closure starts from the other functions)
+	frozen := map[string]bool{}
+	if r.Prop == "C01" {
+		for _, name := range boundsScope["C01"] {
+			frozen[name] = true
+		}
+	}
+	var helpers []*ssa.Function
+	work := []*ssa.Function{}
+	for fn := range inScope {
+		if !frozen[fnLabel(fn)] {
+			work = append(work, fn)
+		}
+	}
+	sort.Slice(work, func(i, j int) bool { return fnLabel(work[i]) < fnLabel(work[j]) })
+	depthOf := map[*ssa.Function]int{}
+	callersIn := map[*ssa.Function][]*ssa.Call{}
+	for len(work) > 0 {
+		fn := work[0]
+		work = work[1:]
+		for _, blk := range fn.Blocks {
+			for _, in := range blk.Instrs {
+				c, ok := in.(*ssa.Call)
+				if !ok {
+					continue
+				}
+				g := c.Call.StaticCallee()
+				if g == nil || c.Call.IsInvoke() || len(g.Blocks) == 0 || fnPkg(g) == nil || !core.InModule(fnPkg(g)) || fnPkg(g) != fnPkg(fn) {
+					continue
+				}
+				if g.Object() != nil && g.Object().Exported() {
+					continue
+				}
+				if _, excl := boundsASTExcluded[fnLabel(g)]; excl {
+					continue
+				}
+				callersIn[g] = append(callersIn[g], c)
+				if inScope[g] || depthOf[fn] >= 3 {
+					continue
+				}
+				inScope[g] = true
+				depthOf[g] = depthOf[fn] + 1
+				helpers = append(helpers, g)
+				work = append(work, g)
+			}
+		}
+	}
+	sort.Slice(helpers, func(i, j int) bool { return fnLabel(helpers[i]) < fnLabel(helpers[j]) })
+	nh := 0
+	for _, h := range helpers {
+		b := e.get(h)
+		if b == nil {
+			continue // recursive helper: not analysed, not claimed
+		}
+		nh++
+		for _, ob := range b.obligations() {
+			nob++
+			ok := ob.ok
+			if !ok && ob.in != nil && len(callersIn[h]) > 0 {
+				ok = true
+				for _, c := range callersIn[h] {
+					if !e.provenInContext(c, h, ob.in) {
+						ok = false
+					}
+				}
+			}
+			r.Check(ok, ob.key, ob.pos, "", ob.detail+" (helper of the functions in scope; not implied by what its callers establish either): an argument could make this access panic (index/slice out of range)")
+		}
+	}
+	r.Count("unexported helpers of the scope analysed with it", nh)
 	r.Count("functions with every index/slice obligation decided", nf)
 	r.Count("listed functions that no longer exist", missing)
 	r.Floor("index/slice obligations", nob, boundsFloor[r.Prop])
